@@ -1,5 +1,6 @@
 pub mod map;
 pub mod misc;
+pub mod ram;
 pub mod vlq;
 
 pub fn dispatch(t: &[&str]) -> String {
@@ -7,6 +8,7 @@ pub fn dispatch(t: &[&str]) -> String {
         "vlq.enc" | "vlq.dec" | "vlq.range" => vlq::run(t),
         "map.dec" | "map.enc" | "map.rt" | "map.lookup" => map::run(t),
         "relpath" => misc::run(t),
+        "ram.parse" | "ram.wf" => ram::run(t),
         _ => "bad-op".into(),
     }
 }
